@@ -163,7 +163,7 @@ TIE = {
  "C08": "SMCSamples.log_evidence_ratio, log_evidence_ratio_variance and the two statements that sum the recorded series after the loop",
  "C09": "SMCSamples.log_weights and the statements of SMCSamples.resample that compute the probability vector handed to rng.choice",
  "C11": "the statements of SMCSampler.sample that decide whether a resumed call re-enters the loop",
- "C12": "the cadence rule inside maybe_checkpoint of SMCSampler.sample",
+ "C12": "the cadence rule inside maybe_checkpoint of SMCSampler.sample and utils.dump_pickle_to_hdf (create / resize / overwrite of the checkpoint dataset, in a dataset vocabulary)",
 }
 for pid, what in TIE.items():
     c = CLAIMS[pid]
